@@ -134,6 +134,7 @@ func (r CharRecipe) SuccessProbability() float32 {
 	rCopy.Allow = r.Allow | r.Require
 	rCopy.Require = None
 
+	verifYield("SuccessProbability:beforeEntropies")
 	eDiff := r.Entropy() - rCopy.Entropy()
 	if eDiff > 0.0 {
 		// This should never happen, but I don't want to
